@@ -54,6 +54,9 @@ def render_tmpl(t: Tmpl, r: Rendered) -> str:
             out.append(p)
         elif p.more:
             r.marker(p)  # registered (so rules can see it) but renders as no further element
+        elif p.conv == "r" and isinstance(p.val, Tmpl):
+            # repr() of a string built from a template: a string literal whose text is that template
+            out.append(repr(render_tmpl(p.val, r)))
         else:
             out.append(r.marker(p))
     return "".join(out)
